@@ -164,4 +164,19 @@ CHECKS = {
              "restart changes nothing; non-trivial = second-level crash between REPLAYINPROCESS and REPLAYED",
         assumptions=["process-crash model at both levels", "first-level points inside the KF-03a window are not used"],
     ),
+    "C05": dict(
+        test="TestC05", level="fault_enumeration", shards=16, cmds=["mkwork", "mkrestart"], engine="crash-engine",
+        tiers=dict(quick=dict(checks=1, timeout=900), thorough=dict(checks=6, timeout=3400, env=dict(VERIF_MAXOPS=7, VERIF_STRIDE=1))),
+        technique="history invariants over strace-recorded runs of the real WAL writer loop + crash-prefix enumeration",
+        env=dict(VERIF_SHRINK="5s"),
+        rule="rapid histories run by the real server with the background WAL writer (SyncWAL) and short timers (WAL refresh "
+             "1-5ms, checkpoint 2-10ms, rotation every 1-3 checkpoints), 1-3 writer goroutines, sleeps, optional graceful "
+             "shutdown, recorded with strace; on every trace the protocol invariants P1 (primary write only after the WAL "
+             "fsync), P2 (ACK only after the fsync covering the request's transaction group), P3 (checkpoint complete only "
+             "after sync()), P4 (WAL truncated only when fully checkpointed), P5 (TGIDs increase); P6 on crash prefixes "
+             "(quick: every 3rd, thorough: all): acknowledged requests recovered and the shared witness slot shows a "
+             "transaction not earlier in commit order than any acknowledged one; non-trivial = crash points of traces "
+             "containing a rotation, a checkpoint or a transaction group carrying several requests",
+        assumptions=["schedules of the WAL writer loop are sampled (recorded, not controlled)", "process-crash model"],
+    ),
 }
